@@ -244,7 +244,10 @@ def run_missing(case):
     e_b = events()["author_B_blacklisted"][0]
     e_pow0 = events()["pow_0"][0]
     checks = [("valid_kinds", V + "is_certain_kind", e), ("pubkey_whitelist", V + "is_author_whitelisted", e_b),
-              ("require_pow", V + "is_pow", e_pow0), ("pubkey_blacklist", V + "is_author_blacklisted", e_b)]
+              ("require_pow", V + "is_pow", e_pow0), ("pubkey_blacklist", V + "is_author_blacklisted", e_b),
+              # no service key configured: nobody is the service, so a service-kind event by anybody is refused
+              ("service_privatekey", V + "is_service_event", events()["service_by_A"][0]),
+              ("service_privatekey", V + "is_service_event", events()["service_by_service"][0])]
     try:
         for attr, val, ev in checks:
             old = getattr(ns.Config, attr)
